@@ -1,5 +1,6 @@
 """Lenip (EtherNet/IP decoder sub-check: C19, C05, C01; C06 and C07 do not apply) configuration for ./check"""
 CONF = {
+    'coq_sample': 12,   # cases re-evaluated inside Coq by vm_compute against the extracted runner's output
     'interesting': ['truncated-prefix-of-valid', 'item-count-extreme', 'consistent-length-cut', 'item-length-extreme', 'unknown-item', 'next-layer',
                     'register-session', 'send-data', 'next-cip', 'other-command', 'error-after-fields-set', 'residue-after-error', 'decode-error', 'malformed', 'seed'],
     'rule': 'Encapsulation packets built field by field by the harness: RegisterSession, SendRRData / SendUnitData with 0..3 common-packet-format items of every '
